@@ -198,4 +198,40 @@ def check_C02(pid, tier, seed, verdict):
                        "origin of foreign bytes is classified by matching the generators of the scenario's other flows"])
 
 
-CHECKS = {"C01": check_C01, "C02": check_C02, "C03": check_C03, "C04": check_C04, "C05": check_C05}
+# ------------------------------------------------------------------------------------------- C11
+def check_C11(pid, tier, seed, verdict):
+    thorough = tier == "thorough"
+    mcs = [mc_must_hold(pid, verdict, "MC_WritePath.tla", "MC_WritePath_fixed.cfg"),
+           mc_must_hold(pid, verdict, "MC_WritePath.tla", "MC_WritePath_fixed3.cfg"),
+           mc_must_fail(pid, "MC_WritePath.tla", "MC_WritePath_pinned.cfg")]
+    # schedules come from the model WITHOUT the repair (a superset: they pre-empt inside the window the
+    # repair closes), so a change that re-opens the window is driven through it
+    g2 = V.run_gen(pid, "MC_WritePath.tla", "Gen_WritePath.cfg")
+    scs = [dict(s, tasks=2) for s in V.sample(g2["scenarios"], None if thorough else 1500, seed)]
+    mcs.append(g2)
+    g3 = V.run_gen(pid, "MC_WritePath.tla", "Gen_WritePath3.cfg", workers=1, simulate=f"num={20000 if thorough else 1500}",
+                   seed=seed, timeout_s=900)
+    uniq = {json.dumps(s, sort_keys=True): s for s in g3["scenarios"]}
+    scs += [dict(s, tasks=3) for s in uniq.values()]
+    sp = os.path.join(V.workdir(pid), "gen.scn")
+    V.write_scenarios(sp, scs)
+    run = V.run_harness(pid, "wirepath", seed, tier, sp)
+    res = V.run_trace(pid, "Trace_WireOrder.tla", "Trace_WireOrder.cfg", run["trace"])
+    verdict.add_trace_result("wirepath", res, run)
+    cnt = res["cnt"]
+    V.log(f"[{pid}] trace: {res['lines']} events, {cnt['scn']} schedules, {cnt['wf']} wire frames, drift={cnt['drift']}, "
+          f"bad={len(res['bad'])}")
+    cov = _cov(mcs, cnt["scn"], cnt["nontrivial"],
+               "scenario = one complete schedule of MC_WritePath (2 tasks: all 23k schedules enumerated, sampled in the quick "
+               "tier; 3 tasks: TLC-simulated) replayed on a real client Session by parking the caller tasks at the cfg-guarded "
+               "scheduling points and releasing exactly one per step; the transport's bytes are parsed by an independent parser; "
+               "non-trivial = schedules in which at least one wire frame was judged; 'drift' counts steps where the model "
+               "released a task the code had not parked (expected after the repair: the model without the repair is used on "
+               "purpose)", V.sample_descrs(run["descr"]), True,
+               dict(behaviours_generated=len(g2["scenarios"]) + len(uniq), behaviours_replayed=len(scs),
+                    trace_events=res["lines"], event_counts=cnt))
+    return cov, ["pre-emption is only possible at hook points and transport operations (DESIGN C11 limits)",
+                 "single-threaded runtime: atomicity between two hook points is that of the code between two awaits"]
+
+
+CHECKS = {"C11": check_C11, "C01": check_C01, "C02": check_C02, "C03": check_C03, "C04": check_C04, "C05": check_C05}
